@@ -321,8 +321,9 @@ func (m *C08) After(w *world.World, a *world.Action, r *world.StepResult) *Viola
 				}
 				continue
 			}
-			if culprit && staked[name] {
-				before.Tokens = after.Tokens // a delegation of this block changed the tokens too: the amount is not comparable
+			tokensComparable := !(culprit && staked[name]) // a delegation of this block changed the tokens too
+			if !tokensComparable {
+				before.Tokens = after.Tokens
 			}
 			if !culprit {
 				if redDst[before.Operator] && !after.Tokens.IsNil() && !before.Tokens.IsNil() && after.Tokens.LTE(before.Tokens) &&
@@ -353,7 +354,7 @@ func (m *C08) After(w *world.World, a *world.Action, r *world.StepResult) *Viola
 			if burned.IsNegative() || burned.GT(maxBurn) {
 				return violf(P, "downtime-slash", "validator %s lost %s tokens for a downtime report (power %d, consumer fraction %s => at most %s)", name, burned, ev.data.Validator.Power, params.Downtime.SlashFraction, maxBurn)
 			}
-			if params.Downtime.SlashFraction.IsPositive() && maxBurn.IsPositive() && len(before.UBD) == 0 && len(before.Red) == 0 {
+			if tokensComparable && params.Downtime.SlashFraction.IsPositive() && maxBurn.IsPositive() && len(before.UBD) == 0 && len(before.Red) == 0 {
 				wantBurn := math.MinInt(maxBurn, before.Tokens)
 				if !burned.Equal(wantBurn) {
 					return violf(P, "downtime-slash", "validator %s lost %s tokens, want %s (fraction %s of reported power %d)", name, burned, wantBurn, params.Downtime.SlashFraction, ev.data.Validator.Power)
@@ -405,6 +406,27 @@ func (m *C08) After(w *world.World, a *world.Action, r *world.StepResult) *Viola
 				w.Label("slash-ack-sent")
 			}
 			m.owed[cid] = rest
+		}
+		// acknowledgements that are owed and not yet carried by a packet are on record on the provider (in its list
+		// for that consumer or inside a validator-set packet still queued for it) until the consumer is deleted
+		if k.GetConsumerPhase(ctx, cid) == world.PhDeleted {
+			m.owed[cid] = nil
+			continue
+		}
+		onRecord := map[string]bool{}
+		for _, a := range k.GetSlashAcks(ctx, cid) {
+			onRecord[a] = true
+		}
+		for _, pk := range k.GetPendingVSCPackets(ctx, cid) {
+			for _, a := range pk.SlashAcks {
+				onRecord[a] = true
+			}
+		}
+		for _, o := range m.owed[cid] {
+			if !onRecord[o.addr] {
+				return violf(P, "slash-ack-not-recorded", "the report of %s by consumer %s (handled at height %d) is owed an acknowledgement, but the provider has none on record for it (list %v)", o.addr, cid, o.height, k.GetSlashAcks(ctx, cid))
+			}
+			w.Label("slash-ack-on-record")
 		}
 	}
 	return nil
